@@ -122,11 +122,11 @@ Print Assumptions C14_aggregation_parses.
 (* ---- composition: a whole Payload call (AddDONL off, any SkipAggregation setting, MTU >= 4):
    every packet parses, and RFC 7798 reassembly of the parsed packets (single NAL unit packets,
    aggregation packets, FU runs from S to E) returns exactly the units of the input, in order.
-   unit_ok: F = 0, type below 48, at least one payload byte, shorter than 65536 bytes, and not
+   unit_ok: F = 0, type below 48, at least one payload byte - of any length - and not
    exactly MTU-1 bytes long (KF-C14-lone-fu).  AddDONL on is KF-C14-donl-every-fu. ---- *)
 From RTP Require Import Proofs.C14_Lossless Model.AnnexB.
 
-Theorem C14_lossless_partial : forall mtu st x l, 4 <= mtu -> h5_donl_on st = false ->
+Theorem C14_lossless_partial : forall mtu st x l, 4 <= mtu <= 65535 -> h5_donl_on st = false ->
   Forall (unit_ok mtu) (emit_nalus (x :: l)) ->
   exists st' fs pkts, h265_payload st mtu (Some (x :: l)) = Ok (st', fs) /\
     Forall2 parses fs pkts /\ reassemble pkts None = emit_nalus (x :: l).
